@@ -109,6 +109,7 @@ type Exec struct {
 	notes     []string
 	specMode    bool // evaluating a specification: no obligations, no assumptions
 	entryReach  *Term
+	reachBase   *Term // inlined execution: the caller's reach condition (block conditions are relative to callee entry)
 	globalsSeen map[*ssa.Global]*Term
 	globalAssumes []*Term // included in every obligation of the function
 }
@@ -171,6 +172,14 @@ func (e *Exec) assume(t *Term) {
 	e.assumes = append(e.assumes, t)
 }
 
+// guard is the full condition under which the current program point is reached.
+func (e *Exec) guard() *Term {
+	if e.reachBase != nil {
+		return And(e.reachBase, e.curReachOrTrue())
+	}
+	return e.curReachOrTrue()
+}
+
 func (e *Exec) root() *Exec {
 	r := e
 	for r.inlineOf != nil {
@@ -211,7 +220,7 @@ func (e *Exec) oblige(kind, detail string, cond *Term, props []string, src strin
 		return
 	}
 	r := e.root()
-	goal := Implies(e.curReach, cond)
+	goal := Implies(e.guard(), cond)
 	if goal == True {
 		// trivially discharged at construction; still counted
 	}
@@ -228,7 +237,14 @@ func (e *Exec) oblige(kind, detail string, cond *Term, props []string, src strin
 
 func (e *Exec) safety(detail string, cond *Term) {
 	if e.root().C != nil && e.root().C.Flags["nosafety"] {
-		e.assume(Implies(e.curReach, cond))
+		e.assume(Implies(e.guard(), cond))
+		return
+	}
+	// inlined generated code of dependencies (protobuf getters): assumed not to panic (A-PROTO-WF: oneof wrapper
+	// pointers held in a non-nil interface are non-nil)
+	if e.inlineOf != nil && e.Fn.Pkg != nil && !strings.HasPrefix(e.Fn.Pkg.Pkg.Path(), repoModule) {
+		e.assume(Implies(e.guard(), cond))
+		e.root().Assumed["A-PROTO-WF"] = true
 		return
 	}
 	e.oblige("safety", detail, cond, []string{"C08"}, "")
@@ -303,13 +319,17 @@ func (e *Exec) closedHeapAxioms() {
 
 func refFact(v *Term, s Sort, next0 *Term) *Term {
 	if _, ok := aliasSorts[s]; ok && (strings.HasPrefix(string(s), "P.") || strings.HasPrefix(string(s), "M.")) {
-		return Lt(RootOf(v), next0)
+		f := And(Le(IntLit(0), v), Lt(v, next0))
+		if tg, ok := aliasTags[s]; ok {
+			f = And(f, Implies(Neq(v, IntLit(0)), Eq(RType(v), tg)))
+		}
+		return f
 	}
 	switch s {
 	case SSlice:
 		return And(Le(IntLit(0), SArr(v)), Lt(SArr(v), next0), Le(IntLit(0), SOff(v)), Le(IntLit(0), SLen(v)), Le(SLen(v), SCap(v)))
 	case SIface:
-		return Lt(RootOf(IVal(v)), next0)
+		return Lt(IVal(v), next0)
 	}
 	return nil
 }
@@ -413,7 +433,7 @@ func (e *Exec) assumeWFBound(v Val, t types.Type, bound *Term) {
 		return
 	}
 	if f := wfTerm(tm, t, bound); f != True {
-		e.assume(Implies(e.curReachOrTrue(), f))
+		e.assume(Implies(e.guard(), f))
 	}
 }
 
@@ -432,12 +452,21 @@ func wfTerm(tm *Term, t types.Type, next *Term) *Term {
 				return True
 			}
 		}
-		return Lt(RootOf(tm), next)
+		// references held in variables and heap cells denote whole allocated objects (A-WHOLE-OBJ): 0 <= r < next
+		f := And(Le(IntLit(0), tm), Lt(tm, next))
+		if tm.Op == "sub" {
+			f = Lt(RootOf(tm), next)
+		}
+		if p, ok := t.Underlying().(*types.Pointer); ok {
+			return And(f, Implies(Neq(tm, IntLit(0)), Eq(RType(tm), tagOf(p.Elem()))))
+		}
+		return And(f, Implies(Neq(tm, IntLit(0)), Eq(RType(tm), tagOf(t))))
 	case *types.Slice:
 		return And(Le(IntLit(0), SOff(tm)), Le(IntLit(0), SLen(tm)), Le(SLen(tm), SCap(tm)), Le(IntLit(0), SArr(tm)), Lt(SArr(tm), next),
-			Implies(Eq(SArr(tm), IntLit(0)), Eq(SCap(tm), IntLit(0))), Le(SCap(tm), BigIntLit("1152921504606846976")))
+			Implies(Eq(SArr(tm), IntLit(0)), Eq(SCap(tm), IntLit(0))), Le(SCap(tm), BigIntLit("1152921504606846976")),
+			Implies(Gt(SArr(tm), IntLit(0)), Eq(RType(SArr(tm)), arrayTag(sortOf(t.Underlying().(*types.Slice).Elem())))))
 	case *types.Interface:
-		return And(Lt(RootOf(IVal(tm)), next), Implies(Eq(ITag(tm), IntLit(0)), Eq(IVal(tm), IntLit(0))), Le(IntLit(0), ITag(tm)))
+		return And(Lt(IVal(tm), next), Implies(Eq(ITag(tm), IntLit(0)), Eq(IVal(tm), IntLit(0))), Le(IntLit(0), ITag(tm)))
 	case *types.Basic:
 		b := t.Underlying().(*types.Basic)
 		if b.Info()&types.IsInteger != 0 {
@@ -598,11 +627,7 @@ func (e *Exec) execBody() {
 		var preds []*ssa.BasicBlock
 		if b == fn.Blocks[0] {
 			sts = append(sts, e.entry)
-			if e.entryReach != nil {
-				conds = append(conds, e.entryReach)
-			} else {
-				conds = append(conds, True)
-			}
+			conds = append(conds, True)
 			preds = append(preds, nil)
 		}
 		for _, p := range b.Preds {
@@ -1030,7 +1055,7 @@ func (e *Exec) assumeZeroStruct(ref *Term, t types.Type) {
 			continue
 		}
 		s := sortOf(f.Type())
-		e.assume(Implies(e.curReach, Eq(Select(st.Get(fieldComp(t, i), ArraySort(SInt, s)), ref), zeroOf(f.Type()))))
+		e.assume(Implies(e.guard(), Eq(Select(st.Get(fieldComp(t, i), ArraySort(SInt, s)), ref), zeroOf(f.Type()))))
 	}
 }
 
@@ -1155,8 +1180,19 @@ func isStruct(t types.Type) bool {
 	return ok
 }
 
+// RType is the allocation type of a reference (an uninterpreted tag: objects of different Go types are different
+// objects even though references are plain integers).
+func RType(r *Term) *Term { return App(DeclFun("rtype", []Sort{SInt}, SInt), SInt, r) }
+
+func arrayTag(es Sort) *Term { return namedTag("array:" + sortTag(es)) }
+
 func (e *Exec) doAlloc(t types.Type) Val {
 	r := e.alloc()
+	if at, ok := t.Underlying().(*types.Array); ok {
+		e.assume(Implies(e.guard(), Eq(RType(r), arrayTag(sortOf(at.Elem())))))
+	} else {
+		e.assume(Implies(e.guard(), Eq(RType(r), tagOf(t))))
+	}
 	st := e.curState
 	switch u := t.Underlying().(type) {
 	case *types.Struct:
@@ -1165,12 +1201,12 @@ func (e *Exec) doAlloc(t types.Type) Val {
 	case *types.Array:
 		es := sortOf(u.Elem())
 		comp := st.Get(elemComp(es), ArraySort(SInt, ArraySort(SInt, es)))
-		e.assume(Implies(e.curReach, Eq(Select(comp, r), ConstArr(ArraySort(SInt, es), zeroOf(u.Elem())))))
+		e.assume(Implies(e.guard(), Eq(Select(comp, r), ConstArr(ArraySort(SInt, es), zeroOf(u.Elem())))))
 		return r
 	default:
 		s := sortOf(t)
 		comp := st.Get(cellComp(s), ArraySort(SInt, s))
-		e.assume(Implies(e.curReach, Eq(Select(comp, r), zeroOf(t))))
+		e.assume(Implies(e.guard(), Eq(Select(comp, r), zeroOf(t))))
 		return &Loc{Kind: LCell, Ref: r, Type: t}
 	}
 }
@@ -1257,7 +1293,8 @@ func (e *Exec) makeMap(t types.Type) Val {
 	k, v := mapSorts(t)
 	r := e.alloc()
 	st := e.curState
-	e.assume(Implies(e.curReach, And(
+	e.assume(Implies(e.guard(), Eq(RType(r), tagOf(t))))
+	e.assume(Implies(e.guard(), And(
 		Eq(e.mapDom(st, r, k, v), ConstArr(ArraySort(k, SBool), False)),
 		Eq(e.mapVal(st, r, k, v), ConstArr(ArraySort(k, v), zeroOfSort(v))))))
 	return r
@@ -1337,7 +1374,7 @@ func (e *Exec) next(x *ssa.Next) Val {
 	bv := BoundVar("k", k)
 	// ok <=> some unvisited key exists; when ok, key is one of them.
 	remaining := func(t *Term) *Term { return And(Neq(it.mapRef, IntLit(0)), Select(dom, t), Not(Select(it.visited, t))) }
-	e.assume(Implies(e.curReach, And(
+	e.assume(Implies(e.guard(), And(
 		Implies(okT, remaining(key)),
 		Implies(Not(okT), Forall([]*Term{bv}, Not(remaining(bv)), []*Term{Select(dom, bv)}, []*Term{Select(it.visited, bv)})))))
 	val := Select(e.mapVal(st, it.mapRef, k, v), key)
@@ -1359,8 +1396,9 @@ func (e *Exec) makeSlice(x *ssa.MakeSlice) Val {
 	e.safety("makeslice", And(Le(IntLit(0), ln), Le(ln, cp)))
 	es := sortOf(x.Type().Underlying().(*types.Slice).Elem())
 	r := e.alloc()
+	e.assume(Implies(e.guard(), Eq(RType(r), arrayTag(es))))
 	comp := e.elems(e.curState, es)
-	e.assume(Implies(e.curReach, Eq(Select(comp, r), ConstArr(ArraySort(SInt, es), zeroOfSort(es)))))
+	e.assume(Implies(e.guard(), Eq(Select(comp, r), ConstArr(ArraySort(SInt, es), zeroOfSort(es)))))
 	return MkSlice(r, IntLit(0), ln, cp)
 }
 
@@ -1466,16 +1504,29 @@ func (e *Exec) appendElems(s *Term, xs []*Term, es Sort) *Term {
 	bi := BoundVar("i", SInt)
 	old := Select(comp, SArr(s))
 	copyFact := Forall([]*Term{bi}, Implies(And(Le(IntLit(0), bi), Lt(bi, SLen(s))), Eq(Select(na, bi), Select(old, Add(SOff(s), bi)))), []*Term{Select(na, bi)})
-	facts := []*Term{copyFact, Ge(newCap, newLen), Le(newCap, BigIntLit("1152921504606846976"))}
+	facts := []*Term{copyFact, Ge(newCap, newLen), Le(newCap, BigIntLit("1152921504606846976")), Eq(RType(r), arrayTag(es))}
 	for j, x := range xs {
 		facts = append(facts, Eq(Select(na, Add(SLen(s), IntLit(int64(j)))), x))
 	}
-	e.assume(Implies(And(e.curReach, Not(inPlace)), And(facts...)))
+	e.assume(Implies(And(e.guard(), Not(inPlace)), And(facts...)))
 	compFR := Store(comp, r, na)
 	resFR := MkSlice(r, IntLit(0), newLen, newCap)
-	st.Set(elemComp(es), Ite(inPlace, compIP, compFR))
+	newComp := Ite(inPlace, compIP, compFR)
+	res := Ite(inPlace, resIP, resFR)
+	st.Set(elemComp(es), newComp)
 	st.next = Ite(inPlace, st.next, Add(st.next, IntLit(1)))
-	return Ite(inPlace, resIP, resFR)
+	// consequences of the model, stated on the element view so that quantified facts about the old and the new
+	// slice trigger each other: the old elements are a prefix of the result, the new ones follow.
+	newArr := Select(newComp, SArr(res))
+	bj := BoundVar("i", SInt)
+	oldAt, newAt := At(old, SOff(s), bj), At(newArr, SOff(res), bj)
+	view := Forall([]*Term{bj}, Implies(And(Le(IntLit(0), bj), Lt(bj, SLen(s))), Eq(newAt, oldAt)), []*Term{oldAt}, []*Term{newAt})
+	vf := []*Term{view}
+	for j, x := range xs {
+		vf = append(vf, Eq(At(newArr, SOff(res), Add(SLen(s), IntLit(int64(j)))), x))
+	}
+	e.assume(Implies(e.guard(), And(vf...)))
+	return res
 }
 
 // ---------- interfaces ----------
@@ -1734,7 +1785,7 @@ func (e *Exec) finish() {
 		conds = append(conds, r.cond)
 	}
 	e.exit = MergeStates(sts, conds)
-	e.exitCond = SimplifyReach(Or(conds...), e.entryReach)
+	e.exitCond = SimplifyReach(Or(conds...))
 	nres := e.Fn.Signature.Results().Len()
 	e.results = make([]Val, nres)
 	for i := 0; i < nres; i++ {
